@@ -390,7 +390,7 @@ theorem unmarshalPilosa_writeUnopt (b : Bitmap)
     have e : 8 + cs.length * 12 + cs.length * 4 = 8 + cs.length * 16 := by omega
     rw [e] at this
     rw [this]; exact List.drop_left' (by rw [encOffsets_length]; omega)
-  unfold unmarshalPilosa
+  unfold unmarshalPilosa loadPilosa
   rw [if_neg (by omega)]
   rw [rd_of_drop _ d _ 0 2 12348 d0 (by omega) (by decide)]
   rw [at1_of_drop _ d _ 2 0 d2, at1_of_drop _ d _ 3 _ d3]
@@ -410,7 +410,7 @@ theorem unmarshalPilosa_writeUnopt (b : Bitmap)
   have := pOffLoop_ok d cs [] (8 + cs.length * 16) (8 + cs.length * 12) PL hcs (by rw [d8'', hPL]) (by omega) hsize
   simp only [List.map_nil, List.nil_append, List.reverse_nil] at this
   rw [this]
-  simp only [Res.ok_bind, slotsToEntries_done]
+  simp only [Res.ok_bind, Res.pure_eq, slotsToEntries_done]
   have hoo : (if cs = [] then 8 + cs.length * 12 else d.length) = d.length := by
     split
     · next h => subst h; simp at hPL; subst hPL; simp at hlen; simp [hlen]
